@@ -300,20 +300,31 @@ def _forward_subst(stmts, pure_calls, keep, nreads):
                 _store_kill(env, s)
                 out.append(s)
                 continue
-            if not isinstance(s, (ast.FunctionDef, ast.ClassDef, ast.AsyncFunctionDef)) and hasattr(s, "body"):
-                _store_kill(env, s)
-            if isinstance(s, (ast.If, ast.While)):
+            if isinstance(s, ast.If):
+                # the test and the first statement of either branch are evaluated before anything in the branches is stored:
+                # the branches start from the bindings valid here (and kill as they go); what follows the `if` sees all its stores
                 s.test = _Subst(env).visit(s.test)
                 killed = _assigned_names(s.body + s.orelse)
-                if isinstance(s, ast.While):
-                    _kill(env, killed)
+                s.body = block(s.body, dict(env))
+                s.orelse = block(s.orelse, dict(env))
+                _kill(env, killed)
+                _store_kill(env, s)
+                out.append(s)
+                continue
+            if isinstance(s, ast.For):
+                s.iter = _Subst(env).visit(s.iter)
+            if not isinstance(s, (ast.FunctionDef, ast.ClassDef, ast.AsyncFunctionDef)) and hasattr(s, "body"):
+                _store_kill(env, s)
+            if isinstance(s, ast.While):
+                s.test = _Subst(env).visit(s.test)
+                killed = _assigned_names(s.body + s.orelse)
+                _kill(env, killed)
                 s.body = block(s.body, dict(env))
                 s.orelse = block(s.orelse, dict(env))
                 _kill(env, killed)
                 out.append(s)
                 continue
             if isinstance(s, ast.For):
-                s.iter = _Subst(env).visit(s.iter)
                 killed = _assigned_names(s.body + s.orelse) | {n.id for n in ast.walk(s.target) if isinstance(n, ast.Name)}
                 _kill(env, killed)
                 s.body = block(s.body, dict(env))
